@@ -341,6 +341,10 @@ func cmdCheck(args []string) int {
 		total = *n
 	}
 	self, _ := os.Executable()
+	raceBin := ""
+	if p.ID() == "C05" {
+		raceBin = os.Getenv("STARSIM_RACE_BIN")
+	}
 	tmp, err := os.MkdirTemp(filepath.Join(verifDir(), ".work"), "run-")
 	if err != nil {
 		os.MkdirAll(filepath.Join(verifDir(), ".work"), 0o755)
@@ -428,8 +432,14 @@ func cmdCheck(args []string) int {
 				if attempt > 0 {
 					args = append(args, "-resume", "-skip", strings.Join(skips, ","))
 				}
-				cmd := exec.Command(self, args...)
-				cmd.Env = append(os.Environ(), "GOMAXPROCS=1", "GORACE=halt_on_error=0 exitcode=0 log_path="+filepath.Join(tmp, fmt.Sprintf("race-w%d", w)))
+				bin := self
+				if raceBin != "" && w%2 == 1 {
+					bin = raceBin
+				}
+				cmd := exec.Command(bin, args...)
+				rlog := filepath.Join(tmp, fmt.Sprintf("race-w%d", w))
+				cmd.Env = append(os.Environ(), "GOMAXPROCS=1", "STARSIM_RACE_LOG="+rlog,
+					"GORACE=halt_on_error=0 exitcode=0 suppress_equal_stacks=0 suppress_equal_addresses=0 log_path="+rlog)
 				var stderr strings.Builder
 				cmd.Stderr = &tailWriter{sb: &stderr}
 				done := make(chan error, 1)
@@ -517,7 +527,12 @@ func cmdCheck(args []string) int {
 		for _, s := range wo.Pairs {
 			pairs[s] = true
 		}
-		found = append(found, wo.Violations...)
+		for _, v := range wo.Violations {
+			if v.Scenario != nil && v.Scenario.N == nil {
+				v.Scenario.N = map[string]int64{}
+			}
+			found = append(found, v)
+		}
 		if len(agg.Samples) < 4 {
 			agg.Samples = append(agg.Samples, wo.Samples...)
 		}
@@ -567,10 +582,19 @@ func cmdCheck(args []string) int {
 		}
 		min := fv.Scenario
 		detail := fv.Detail
-		if fv.Class != "crash" {
-			min, detail = minimise(p, fv.Scenario, fv.Class, 40*time.Second)
+		bin := self
+		if fv.Class == "data-race" && raceBin != "" {
+			bin = raceBin
+			fv.Scenario.N["race"] = 1
+		}
+		if fv.Class == "crash" || bin != self {
+			var d2 string
+			min, d2 = minimiseInChild(bin, p, fv.Scenario, fv.Class, tmp, 90*time.Second)
+			if d2 != "" {
+				detail = d2
+			}
 		} else {
-			min = minimiseCrash(self, p, fv.Scenario, tmp, 60*time.Second)
+			min, detail = minimise(p, fv.Scenario, fv.Class, 40*time.Second)
 		}
 		shape := p.Shape(min, fv.Class)
 		if seenShape[shape] {
@@ -585,7 +609,7 @@ func cmdCheck(args []string) int {
 		os.MkdirAll(filepath.Join(verifDir(), "replays"), 0o755)
 		path := filepath.Join(verifDir(), "replays", fmt.Sprintf("%s-%d-%016x.json", p.ID(), seed, hashStr(string(min.JSON()))))
 		os.WriteFile(path, min.JSON(), 0o644)
-		classes, crashed := replayInChild(self, path)
+		classes, crashed := replayInChild(bin, path)
 		ok := crashed && fv.Class == "crash"
 		for _, c := range classes {
 			if c == fv.Class {
@@ -717,7 +741,16 @@ func (t *tailWriter) Write(b []byte) (int, error) {
 // returns the violation classes it reported.
 func replayInChild(self, path string) (classes []string, crashed bool) {
 	cmd := exec.Command(self, "replay", "-classes", path)
-	cmd.Env = append(os.Environ(), "GOMAXPROCS=1", "GORACE=halt_on_error=0 exitcode=0")
+	rlog := filepath.Join(os.TempDir(), fmt.Sprintf("starsim-race-%d", os.Getpid()))
+	cmd.Env = append(os.Environ(), "GOMAXPROCS=1", "STARSIM_RACE_LOG="+rlog,
+		"GORACE=halt_on_error=0 exitcode=0 suppress_equal_stacks=0 suppress_equal_addresses=0 log_path="+rlog)
+	defer func() {
+		if m, _ := filepath.Glob(rlog + ".*"); len(m) > 0 {
+			for _, f := range m {
+				os.Remove(f)
+			}
+		}
+	}()
 	out, err := cmd.Output()
 	for _, line := range strings.Split(string(out), "\n") {
 		if strings.HasPrefix(line, "CLASS ") {
@@ -853,9 +886,14 @@ func hasClass(p Prop, sc *Scenario, class string) (bool, string) {
 
 // minimise shrinks sc while a violation of the same class persists.
 func minimise(p Prop, sc *Scenario, class string, budget time.Duration) (*Scenario, string) {
+	return minimiseWith(p, sc, budget, func(c *Scenario) (bool, string) { return hasClass(p, c, class) })
+}
+
+// minimiseWith shrinks sc while test keeps reporting the violation.
+func minimiseWith(p Prop, sc *Scenario, budget time.Duration, test func(*Scenario) (bool, string)) (*Scenario, string) {
 	deadline := time.Now().Add(budget)
 	cur := sc.Clone()
-	ok, detail := hasClass(p, cur, class)
+	ok, detail := test(cur)
 	if !ok {
 		return sc, "(did not reproduce in the driver)"
 	}
@@ -863,7 +901,7 @@ func minimise(p Prop, sc *Scenario, class string, budget time.Duration) (*Scenar
 		if time.Now().After(deadline) {
 			return false
 		}
-		if ok, d := hasClass(p, c, class); ok {
+		if ok, d := test(c); ok {
 			cur, detail = c, d
 			return true
 		}
@@ -949,42 +987,21 @@ func shrinkList(length func() int, without func(i, n int) *Scenario, try func(*S
 	return progress
 }
 
-// minimiseCrash shrinks a scenario that kills the process, testing candidates
-// in child processes.
-func minimiseCrash(self string, p Prop, sc *Scenario, tmp string, budget time.Duration) *Scenario {
-	deadline := time.Now().Add(budget)
-	cur := sc.Clone()
-	path := filepath.Join(tmp, "crash-candidate.json")
-	crashes := func(c *Scenario) bool {
+// minimiseInChild shrinks a scenario whose violation can only be observed in a
+// child process (a crash, or a race report that needs the -race binary).
+func minimiseInChild(bin string, p Prop, sc *Scenario, class string, tmp string, budget time.Duration) (*Scenario, string) {
+	path := filepath.Join(tmp, "candidate.json")
+	return minimiseWith(p, sc, budget, func(c *Scenario) (bool, string) {
 		os.WriteFile(path, c.JSON(), 0o644)
-		_, crashed := replayInChild(self, path)
-		return crashed
-	}
-	if !crashes(cur) {
-		return cur
-	}
-	try := func(c *Scenario) bool {
-		if time.Now().After(deadline) {
-			return false
+		classes, crashed := replayInChild(bin, path)
+		if class == "crash" {
+			return crashed, "the process was killed by a fatal Go error"
 		}
-		if crashes(c) {
-			cur = c
-			return true
+		for _, cl := range classes {
+			if cl == class {
+				return true, ""
+			}
 		}
-		return false
-	}
-	shrinkList(func() int { return len(cur.Prog) }, func(i, n int) *Scenario {
-		c := cur.Clone()
-		c.Prog = append(append([]string{}, cur.Prog[:i]...), cur.Prog[i+n:]...)
-		return c
-	}, try)
-	for mi := range cur.Mods {
-		mi := mi
-		shrinkList(func() int { return len(cur.Mods[mi].Units) }, func(i, n int) *Scenario {
-			c := cur.Clone()
-			c.Mods[mi].Units = append(append([]string{}, cur.Mods[mi].Units[:i]...), cur.Mods[mi].Units[i+n:]...)
-			return c
-		}, try)
-	}
-	return cur
+		return false, ""
+	})
 }
